@@ -10,6 +10,9 @@
   * `MCDataSamplingBkgGenMethod.generate_events`: on a changed data id `_cache_mc = data.mc.copy(keep_fields)`
     (optionally replaced by the pre-selection `_cache_mc[idxs]`), `_cache_mc.indices`; then
     `bkg = _cache_mc[drawn indices]`, optional in-place scrambling of `bkg` (`copy=False`), `bkg.tidy_up(exp fields)`;
+  * `CompositeMCDataSamplingBkgGenMethod.generate_events`: on every call `data_mc = data.mc.copy(keep_fields)`,
+    in-place scrambling of `data_mc`, `data_mc[component] = rate` for every background component, optional
+    pre-selection, `data_mc.indices`, `bkg = data_mc[drawn indices]`, `bkg.tidy_up(exp fields)`;
   * signal events are a new container; they are merged by `bkg.append(sig)`;
   * `TrialDataManager.initialize_trial(events)` adopts the given container: pre-selection static fields are
     assigned into it, the event selection replaces it by `events[idxs]`, `sort_by_field(index_field)` re-orders it,
@@ -59,6 +62,8 @@ structure TrialCfg where
 inductive GOp
   | genFixed (sets : List (Name × Col))
   | genMC (keep : List Name) (presel : Option Sel) (draw : List Int) (sets : List (Name × Col)) (expFields : List Name)
+  | genComposite (keep : List Name) (sets rates : List (Name × Col)) (presel : Option Sel) (draw : List Int)
+      (expFields : List Name)
   | genSig (cols : List (Name × Col))
   | merge (b s : Nat)
   | initTrial (e : Nat) (cfg : TrialCfg)
@@ -90,6 +95,13 @@ def cachePlan (n0 : Nat) (r : Roles) (keep : List Name) (presel : Option Sel) : 
     | none => ([.copy r.mc (some keep), .indices n0], n0, n0 + 1)
     | some sel => ([.copy r.mc (some keep), .getSel n0 sel, .indices (n0 + 1)], n0 + 1, n0 + 2)
 
+/-- sampling from the per-trial MC copy `n0` of `CompositeMCDataSamplingBkgGenMethod`: optional pre-selection
+(`data_mc = data_mc[idxs]`), `data_mc.indices`, `bkg = data_mc[drawn indices]`; returns the container of `bkg` -/
+def compositePlan (n0 : Nat) (presel : Option Sel) (draw : List Int) : List Op × Nat :=
+  match presel with
+  | none => ([.indices n0, .getSel n0 (.idx draw)], n0 + 1)
+  | some sel => ([.getSel n0 sel, .indices (n0 + 1), .getSel (n0 + 1) (.idx draw)], n0 + 2)
+
 /-- operations, new roles, handle returned to the caller -/
 def compile (n0 : Nat) (r : Roles) : GOp → List Op × Roles × Option Nat
   | .genFixed sets => ([.copy r.exp none] ++ setItems n0 sets, r, some n0)
@@ -97,6 +109,11 @@ def compile (n0 : Nat) (r : Roles) : GOp → List Op × Roles × Option Nat
     let p := cachePlan n0 r keep presel
     (p.1 ++ [.getSel p.2.1 (.idx draw)] ++ setItems p.2.2 sets ++ [.tidyUp p.2.2 expFields],
      { r with cache := some p.2.1 }, some p.2.2)
+  | .genComposite keep sets rates presel draw expFields =>
+    -- CompositeMCDataSamplingBkgGenMethod: a fresh reduced copy of data.mc on *every* call, scrambled in place
+    -- (copy=False), the rate of every background component assigned into it, optional pre-selection, then sampling
+    let p := compositePlan n0 presel draw
+    ([.copy r.mc (some keep)] ++ setItems n0 sets ++ setItems n0 rates ++ p.1 ++ [.tidyUp p.2 expFields], r, some p.2)
   | .genSig cols => ([.new cols], r, some n0)
   | .merge b s => ([.append b s], r, some b)
   | .initTrial e cfg =>
